@@ -49,7 +49,11 @@ MANIFEST = {
             "dicts (collections.UserDict; versioned like dicts since fix baebc51, earlier finding "
             "C05-non-dict-mapping-mixed-precision-rules) are run on the implementation and judged by the oracle only -- the model "
             "has no such carrier; a share of the chains is run again in workers whose process time zone is not UTC (TZ=JST-9, "
-            "EST5EDT) and must give the same outcomes (naive datetimes are UTC by the library's rule). The model "
+            "EST5EDT), and again twice in one interpreter (forward, reversed), and must give the same outcomes. Aware values are "
+            "compared by their UTC instant (which offset carries it is not compared). Version times that are zone-aware datetimes "
+            "in the second reading of a repeated DST hour (fold=1): the model works with the value's true fixed offset; code "
+            "whose push-ahead arithmetic forgets the fold (finding C05-fudge-modified-resets-fold, fix proposed) is detected by a "
+            "probe, such chains are then judged by the oracle only. The model "
             "takes uuid.UUID() to accept the canonical 36-character form only. Assumed: keyword "
             "arguments and dict keys distinct; spec versions 2.0 and 2.1; for dict chains no change set rewrites spec_version "
             "(shown necessary); timestamps within years 1..9999. No axioms.",
